@@ -48,6 +48,7 @@ func (v *Verifier) replayTerms(u *Unit, o *Obligation) []modelTerm {
 		}
 	}
 	e := u.Enc
+	e.unitFuns = u.Funs
 	for _, in := range u.Inputs {
 		if in.val.term == "" || len(in.val.tuple) > 0 {
 			continue
@@ -72,7 +73,7 @@ func (e *Enc) structFieldTerms(prefix string, t types.Type, ref string, declared
 		ft := st.Field(i).Type()
 		if _, nested := ft.Underlying().(*types.Struct); nested {
 			fn := fmt.Sprintf("fa_%s_%d", structKey(t), i)
-			if _, ok := e.v.funDecls[fn]; ok {
+			if e.unitFuns[fn] {
 				out = append(out, e.structFieldTerms(prefix+"."+st.Field(i).Name(), ft, "("+fn+" "+ref+")", declared, depth+1)...)
 			}
 			continue
@@ -380,6 +381,7 @@ func reifyFields(setup, post *[]string, res *replayResult, goName, modelName, sr
 // model and the post-state fields / results fixed to what the real code did.
 func (v *Verifier) evalEnsuresConcrete(u *Unit, model map[string]string, obs *replayObs) (bool, string) {
 	fn := u.Fn
+	v.resetTables()
 	q := newQuery(v.u)
 	e := &Enc{v: v, q: q, u: v.u, top: fn, oblCount: map[string]int{}, contract: u.Contract}
 	pre := q.entryState()
@@ -520,7 +522,8 @@ func jsonToSMT(t types.Type, raw json.RawMessage) (string, bool) {
 // concrete string (separator ".").
 func concreteSplitFacts(v *Verifier, s string) []string {
 	if _, ok := v.funDecls["ncomp"]; !ok {
-		return nil
+		v.declFun("ncomp", "(String String) Int")
+		v.declFun("comp", "(String String Int) String")
 	}
 	parts := strings.Split(s, ".")
 	out := []string{fmt.Sprintf("(= (ncomp %s \".\") %d)", smtString(s), len(parts))}
